@@ -204,7 +204,9 @@ func NewHTTPBodyReader(readJSON, useUsernameNotEmail bool) *HTTPBodyReader {
 			"recover_end": {FormValuePassword, authboss.ConfirmPrefix + FormValuePassword},
 		},
 		Whitelist: map[string][]string{
-			"register": {FormValueEmail, FormValuePassword},
+			// the password is not an arbitrary value: it must only ever reach
+			// the user through PutPassword, hashed
+			"register": {FormValueEmail},
 		},
 	}
 }
